@@ -1,7 +1,7 @@
 (** C15 — Rejected operations change nothing.  Property theorems only. *)
 From Coq Require Import ZArith QArith String List.
 From QS Require Import theories.Num theories.Position theories.Portfolio theories.Fees theories.Exchange
-  theories.Broker theories.EntryBroker proofs.Noop.
+  theories.Broker theories.EntryBroker proofs.Noop proofs.NoopUpdate.
 Import ListNotations.
 Open Scope Q_scope.
 
@@ -29,6 +29,32 @@ Theorem backwards_update_is_noop :
     step bidask midp true b (Update t) = (b, Err EarlyTimestamp, []).
 Proof. exact update_refused_when_early. Qed.
 Print Assumptions backwards_update_is_noop.
+
+(** THE COMPLETE STATEMENT for every state reachable from a freshly constructed broker, after any
+    operation history: any request refused with an error - including a clock update refused for a
+    timestamp earlier than a portfolio's (or position's) clock - leaves every cash balance, position
+    record, pending-order queue and history list exactly as it was and records no cash movement.
+    (A clock update can also fail for a reason the property does not list - an asset without a
+    quote, a non-positive price from the data handler - hence the side condition on updates.) *)
+Theorem reachable_rejected_is_noop :
+  forall bidask midp start base funds fee b0 ops b rs es o b' e ef,
+    broker_init start base funds fee = Ok b0 ->
+    run bidask midp true b0 ops = (b, rs, es) ->
+    step bidask midp true b o = (b', Err e, ef) ->
+    (forall t, o = Update t -> e = EarlyTimestamp) ->
+    broker_obs b' = broker_obs b /\ ef = [].
+Proof. exact NoopUpdate.reachable_rejected_is_noop. Qed.
+Print Assumptions reachable_rejected_is_noop.
+
+(** once the up-front validation of the repaired update has passed, nothing deeper in the update
+    (re-marking, order execution) can still refuse the timestamp: the refusal always comes first *)
+Theorem validated_update_never_refuses_the_timestamp :
+  forall bidask midp b t b1 e ef,
+    NoDup (map fst (b_accts b)) ->
+    forallb (fun pa => acct_clock_ok t (is_open t) (snd pa)) (b_accts b) = true ->
+    update bidask midp true b t = (b1, Err e, ef) -> e <> EarlyTimestamp.
+Proof. exact update_validated_never_early. Qed.
+Print Assumptions validated_update_never_refuses_the_timestamp.
 
 (** ... and more generally whenever the up-front timestamp validation fails. *)
 Theorem update_validation_is_noop :
